@@ -63,9 +63,7 @@ def reciprocal(table_axes, faces, grid_axes):
     return True
 
 
-def run_assign(P, fc, n_faces=2, grid_axes=("AX", "AY"), ds_dims=None):
-    fi = P.func("grid:Grid._assign_face_connections")
-
+def _assign_evaluator(P, n_faces=2):
     def values_contains(ev, recv, args, kw, node):
         x = args[0]
         return isinstance(x, int) and not isinstance(x, bool) and 0 <= x < n_faces
@@ -73,7 +71,12 @@ def run_assign(P, fc, n_faces=2, grid_axes=("AX", "AY"), ds_dims=None):
     def ds_getitem(ev, recv, args, kw, node):
         return Obj("Coord", "facecoord", (), {"values": Obj("FaceValues", "values")})
 
-    ev = Evaluator(P, method_models={("Dataset", "__getitem__"): ds_getitem, ("FaceValues", "__contains__"): values_contains})
+    return Evaluator(P, models={"warnings.warn": lambda ev, a, k, n: None}, method_models={("Dataset", "__getitem__"): ds_getitem, ("FaceValues", "__contains__"): values_contains})
+
+
+def run_assign(P, fc, n_faces=2, grid_axes=("AX", "AY"), ds_dims=None):
+    fi = P.func("grid:Grid._assign_face_connections")
+    ev = _assign_evaluator(P, n_faces)
 
     def make():
         g = make_grid(grid_axes)
@@ -206,6 +209,7 @@ def check(ctx):
 
     before = len(ctx.findings)
     _wiring_ctor_only(ctx, P)
+    _through_constructor(ctx, P)
     n = 0
     for q, f in P.functions.items():
         n += 1
@@ -257,6 +261,44 @@ def _wiring_ctor_only(ctx, P):
         ctx.report("R17.1", init, "Grid.__init__ validates what it stores", "the constructor does not store the table it is given")
     else:
         ctx.ok("R17.1", "Grid.__init__ validates what it stores", "table passed to _assign_face_connections")
+
+
+def _through_constructor(ctx, P):
+    """R17.3 through Grid.__init__ itself (the validator interpreted, not modelled): what the *caller* hands to the constructor
+    is what gets judged - a constructor that validates a trimmed or re-built copy lets the rest through."""
+    from ..xmodel import dimsym
+
+    init = P.func("grid:Grid.__init__")
+    good = {0: {AX: (None, (1, AX, False))}, 1: {AX: ((0, AX, False), None)}}
+    cases = [
+        ("valid table", {FACE: good}, True),
+        ("two face dimensions", {FACE: good, Sym("face2"): copy.deepcopy(good)}, False),
+        ("two face dimensions, the absent one listed first", {Sym("face2"): copy.deepcopy(good), FACE: good}, False),
+        ("link that is not answered", {FACE: {0: {AX: (None, (1, AX, False))}, 1: {AX: (None, None)}}}, False),
+        ("answer with the other reverse flag", {FACE: {0: {AX: (None, (1, AX, False))}, 1: {AX: ((0, AX, True), None)}}}, False),
+    ]
+    for name, tbl, ok in cases:
+        inst = f"Grid(face_connections=...) with {name}"
+
+        def make():
+            coords = {AX: {"center": dimsym("AX", "center"), "left": dimsym("AX", "left")}}
+            ds = Obj("Dataset", "ds", (), {"dims": (dimsym("AX", "center"), dimsym("AX", "left"), FACE), "__isinstance__": ("Dataset",), "faces": {FACE: (0, 1)}})
+            me = Obj("Grid", "self", (), {"__class__": "grid:Grid"})
+            return dict(self=me, ds=ds, coords=coords, periodic=False, fill_value=None, default_shifts=None, boundary=None,
+                        face_connections=copy.deepcopy(tbl), metrics=None, autoparse_metadata=False)
+
+        ev = _assign_evaluator(P)
+        try:
+            outs = ev.run_paths(init, make)
+        except Unmodelled as e:
+            ctx.unknown("R17.3", inst, str(e))
+            continue
+        if ok and not all(o.kind == "return" for o in outs):
+            ctx.report("R17.3", init, inst, f"a reciprocal table is refused by the constructor ({[o.value for o in outs if o.kind != 'return'][0]})")
+        elif not ok and not all(o.kind == "raise" for o in outs):
+            ctx.report("R17.3", init, inst, f"the constructor accepts a table with {name}: what it validates is not what the caller gave")
+        else:
+            ctx.ok("R17.3", inst, "accepted" if ok else "refused")
 
 
 def _show(t):
